@@ -94,10 +94,32 @@ def dce_family(tier='quick'):
                 progs.append(f'1; if ({c}) {{ {b} }} else {{ {b2} }}')
                 progs.append(f'(function(){{ 1; if ({c}) {{ {b} }} else {{ {b2} }} return typeof v + typeof h + typeof w }})()')
                 progs.append(f'print(typeof v, typeof h, typeof w); if ({c}) {{ {b} }} else {{ {b2} }} print(typeof v, typeof h)')
+    # conditions that only become literals by folding (NaN, -0, infinities, strings, null/undefined), brace-less branches, and
+    # var declarations in every position that hoists out of a removed branch
+    conds2 = conds + ['0 / 0', '"a" * 2', '-"x"', '0 * -1', '1 / 0', '-1 / 0', '"0"', '"" + ""', 'null', 'undefined', '0.0', '1e-320', '!1', '-0', '+""', '~-1', '0n * 1n',
+                      '"a" && 0', '0 || ""', 'null ?? 0', 'typeof 1', 'void 0 ?? 1', '2 ** -1075']
+    single = ['print("t");', 'var v = print("i");', '3;', 'for (var k in {a: 1});', 'for (var k of []);', 'for (var k = 0; false;);', 'try {} catch { var k }',
+              'switch (0) { case 0: var k }', 'L: var k;', 'do var k; while (false)', 'if (print("n")) var k;', ';']
+    for c in conds2:
+        cq = c.replace('"', '\\"')
+        for b in single:
+            progs.append(f'1; if ({c}) {b}\ntry {{ print(k) }} catch (e) {{ print("Ek", e.name) }} try {{ print(v) }} catch (e) {{ print("Ev", e.name) }}')
+            progs.append(f'1; if ({c}) {b} else print("e");\ntry {{ print(k) }} catch (e) {{ print("Ek", e.name) }} try {{ print(v) }} catch (e) {{ print("Ev", e.name) }}')
+            progs.append(f'1; if ({c}) print("t"); else {b}\ntry {{ print(k) }} catch (e) {{ print("Ek", e.name) }} try {{ print(v) }} catch (e) {{ print("Ev", e.name) }}')
+            progs.append(f'(function(){{ 1; if ({c}) {b} else {{ print("e") }}\nvar out = []; try {{ out.push(k) }} catch (e) {{ out.push("Ek") }} try {{ out.push(v) }} catch (e) {{ out.push("Ev") }} return out.join() }})()')
+            progs.append(f'(function(){{ 1; if ({c}) {{ print("t") }} else {b}\nvar out = []; try {{ out.push(k) }} catch (e) {{ out.push("Ek") }} try {{ out.push(v) }} catch (e) {{ out.push("Ev") }} return out.join() }})()')
+        progs.append(f'1; while ({c}) break;')
+        progs.append(f'1; for (;{c};) break;')
+        progs.append(f'2; do 1; while (({c}) && false)')
+        progs.append(f'({c}) ? print("t") : print("e")')
+        progs.append(f'print(({c}) ? "t" : "e", !({c}), !!({c}))')
+        progs.append(f'print(({c}) && "and", ({c}) || "or", ({c}) ?? "nn")')
+        if '"' not in c or True:
+            progs.append(f'print(eval("1; if ({cq}) 2; else 3;"))')
     # code after return / throw / break
-    tails = ['print("dead");', 'var dv = 1;', 'function dh(){}', '7;']
+    tails = ['print("dead");', 'var dv = 1;', 'function dh(){}', '7;', 'for (var dv in {});', 'for (var dv of []);']
     for t in tails:
-        progs.append(f'(function(){{ return typeof dv + typeof dh; {t} }})()')
+        progs.append(f'(function(){{ try {{ dv }} catch (e) {{ return "Edv" }} try {{ dh }} catch (e) {{ return "Edh" }} return typeof dv + typeof dh; {t} }})()')
         progs.append(f'(function(){{ try {{ throw 1; {t} }} catch (e) {{ return typeof dv + typeof dh }} }})()')
         progs.append(f'1; for (;;) {{ 2; break; {t} }}')
         progs.append(f'1; L: {{ 2; break L; {t} }}')
@@ -649,4 +671,85 @@ def completion_family(tier='quick'):
             if d <= 2:
                 progs.append(COMPLETION_PRE + 'print(eval(' + repr(body).replace("'", '"') + '));' if '"' not in body else COMPLETION_PRE + "print(eval('" + body.replace('\\', '\\\\').replace("'", "\\'") + "'));")
                 progs.append(COMPLETION_PRE + '(function () { print(eval(' + "'" + body.replace('\\', '\\\\').replace("'", "\\'") + "'" + ')); })();')
+    return list(dict.fromkeys(progs))
+
+
+# ------------------------------------------------------------------------------------------------
+# capt (C01, C03, C04): loop bindings captured by closures x every way of leaving an iteration x wrappers
+# ------------------------------------------------------------------------------------------------
+# (head with optional label slot @, expression over the loop bindings, statement that mutates the binding or '')
+CAPT_HEADS = [
+    ('for (let i = 0; i < 3; i++)', 'i', 'i += 0;'),
+    ('for (let i = 0, j = 9; i < 3; i++, j--)', 'i + j * 10', 'j++;'),
+    ('for (let i = 0, g = () => i; i < 3; i++)', 'i + "/" + g()', ''),
+    ('for (let i = 0; fs.push(() => "t" + i), i < 3; i++)', 'i', ''),
+    ('for (let i = 0; i < 3; fs.push(() => "u" + i), i++)', 'i', 'ms.push(() => ++i);'),
+    ('for (let x of [1, 2, 3])', 'x', 'x += 10;'),
+    ('for (const x of [1, 2, 3])', 'x', ''),
+    ('for (let k in {a: 1, b: 2, c: 3})', 'k', 'k += "!";'),
+    ('for (let [p, q = p] of [[1, 2], [3], [5, 6]])', 'p + q * 10', 'q++;'),
+    ('for (var v = 0; v < 3; v++)', 'v', ''),
+    ('var w = 0; @while (w++ < 3)', 'w', ''),
+    ('var d = 0; @do', 'd', ''),          # closed by `while (++d < 3)`
+]
+# ways of leaving the iteration after the closures were created (c counts iterations from 0; OUT labels the loop itself)
+CAPT_EXITS = [
+    ('plain', ''),
+    ('cont', 'if (c++ % 2 == 0) continue;'),
+    ('break', 'if (c++ == 1) break;'),
+    ('ret', 'if (c++ == 1) return "r";'),
+    ('cont-fin', 'try { if (c++ % 2 == 0) continue; } finally { print("f", c) }'),
+    ('ret-fin', 'try { if (c++ == 1) return "r" } finally { print("f", c) }'),
+    ('ret-fin-scope', 'try { if (c++ == 1) return "r" } finally { let z = c * 100; fs.push(() => z); }'),
+    ('brk-fin-scope', 'try { if (c++ == 1) break } finally { let z = c * 100; fs.push(() => z); }'),
+    ('switch', 'switch (c++) { case 0: continue; case 1: { let s = 5; fs.push(() => s); break } default: }'),
+    ('inner-cont-out', 'for (let n = 0; n < 2; n++) { fs.push(() => "n" + n); if (n == 1) continue OUT; }'),
+    ('inner-ret', 'for (let n of [7, 8]) { fs.push(() => "n" + n); if (c++ == 2) return "ri"; }'),
+    ('inner-brk-out', 'for (let n of [7, 8]) { fs.push(() => "n" + n); if (c++ == 2) break OUT; }'),
+    ('label', 'L: { if (c++ == 0) break L; print("in") }'),
+    ('throw', 'try { if (c++ == 1) throw "t" } catch (e) { fs.push(() => e + c); continue }'),
+]
+# wrappers around the whole loop (LOOP) inside the function
+CAPT_WRAPS = [
+    ('none', 'LOOP'),
+    ('fin', 'try { LOOP } finally { print("F") }'),
+    ('fin-scope', 'try { LOOP } finally { let t = 1; fs.push(() => "t" + t++) }'),
+    ('catch', 'try { LOOP } catch (e) { print("C", e) }'),
+    ('switch', 'switch (1) { case 1: let sw = 4; fs.push(() => "sw" + sw); LOOP }'),
+    ('block', '{ let b = 7; fs.push(() => "b" + b++); LOOP }'),
+    ('fin2', 'try { try { LOOP } finally { print("F1") } } finally { print("F2") }'),
+    ('fin-override', 'for (let r = 0; r < 2; r++) { fs.push(() => "r" + r); try { LOOP } finally { if (r == 0) continue; } }'),
+    ('of-wrap', 'for (let o of [1, 2]) { fs.push(() => "o" + o); try { LOOP } finally { let y2 = o; fs.push(() => "y" + y2) } }'),
+]
+CAPT_CTX = [
+    ('fn', 'function f() { BODY return "end" } print(f());'),
+    ('gen', 'function* f() { yield 0; BODY return "end" } var it = f(); for (var st = it.next(); !st.done; st = it.next()) print("y", st.value); print(st.value);'),
+    ('async', 'async function f() { await 0; BODY return "end" } f().then(v => { print(v); show() }, e => print("rej", e));'),
+    ('arrow', 'var f = () => { BODY return "end" }; print(f());'),
+    ('method', 'class K { static m() { BODY return "end" } } print(K.m());'),
+]
+
+
+def capt_family(tier='quick'):
+    progs = []
+    show = 'function show() { print(fs.map(g => g()).join(" ")); ms.forEach(m => m()); print(fs.map(g => g()).join(" ")) }'
+    for hi, (head, expr, mut) in enumerate(CAPT_HEADS):
+        for en, ex in CAPT_EXITS:
+            for wn, wrap in CAPT_WRAPS:
+                for cn, ctx in CAPT_CTX:
+                    if tier == 'quick':
+                        # quick: every (head, exit, wrap) in the plain function context; the other contexts on a third of the product
+                        if cn != 'fn' and (hi + len(en) + len(wn)) % 3 != len(cn) % 3:
+                            continue
+                    pause = {'gen': 'yield c;', 'async': 'await c;'}.get(cn, '')
+                    body = '{ let y = c; fs.push(() => [' + expr + ', y].join(":")); ' + mut + ' ' + pause + ' ' + ex + ' print("after", ' + expr + '); }'
+                    if '@' in head:
+                        loop = head.replace('@', 'OUT: ') + ' ' + body + (' while (++d < 3);' if head.endswith('do') else '')
+                    else:
+                        loop = 'OUT: ' + head + ' ' + body
+                    inner = 'var c = 0; ' + wrap.replace('LOOP', loop)
+                    p = 'var fs = [], ms = [];\n' + show + '\n' + ctx.replace('BODY', inner)
+                    if cn != 'async':
+                        p += '\nshow();'
+                    progs.append(p)
     return list(dict.fromkeys(progs))
